@@ -290,6 +290,11 @@ def fixed_corpus():
     # look-around: end anchor, word boundary
     out.append(Def([L('regex', 'c$'), L('regex', 'c[a-b]+'), L('token', 'd')], origin='fixed:eoi'))
     out.append(Def([L('regex', 'c$'), L('token', 'd'), L('regex', 'ab$')], origin='fixed:eoi2'))
+    # an end-anchored pattern and an unanchored one sharing the same text behind different prefixes: two states with the same byte
+    # edges that differ only in the end-of-input edge (must not be merged); both ways round, and with a skip
+    out.append(Def([L('regex', 'yab$'), L('regex', '[xy]abc')], origin='fixed:eoi-share'))
+    out.append(Def([L('regex', 'xab$'), L('regex', '[xy]abc'), L('skip', ' ')], origin='fixed:eoi-share2'))
+    out.append(Def([L('regex', '\\\\$'), L('regex', '[\\\\/]n'), L('regex', '[a-z]+')], origin='fixed:eoi-share3'))
     out.append(Def([L('regex', '[a-z]+(?-u:\\b)'), L('regex', '[a-z]+[0-9]', prio=20), L('skip', ' +')], origin='fixed:wordb'))
     # look-around in the middle of a pattern, negated word boundary, half boundaries, CRLF-aware line ends,
     # an assertion that can never hold (pruned as a dead end)
